@@ -258,7 +258,7 @@ Proof.
     apply (arr_go_inv (wfs t)) in Hd; auto.
     + destruct Hd as (l0 & -> & Hl & Fl). split; [lia|]. apply wfs_elems. exact Fl.
     + intros c Pc. apply dec_packed_yields. apply IHt. exact Pc.
-  - destruct (has_data s).
+  - rewrite ptr_guard_eq in Hd. destruct (has_data s).
     + match type of Hd with context [decode nd t s ?c] => destruct (decode nd t s c) as [x s1| | |] eqn:E end; try discriminate.
       inversion Hd; subst. cbn [wfs]. revert E. apply IHt.
       destruct cur; try apply wfs_dflt. destruct sh; [apply wfs_dflt|exact Hc].
